@@ -95,6 +95,22 @@ def boundary_texts(ctx, C, bases, moduli=(64,), pad="x;\n"):
     return out
 
 
+def nesting_texts(depths=(1, 2, 10, 63, 64, 65, 200)):
+    """unclosed and closed nests of every bracketing construct up to the nesting bound of DESIGN §6 (200): the
+    parser unwinds k levels at end of input without consuming a token"""
+    out = []
+    openers = [("(", ")"), ("[", "]"), ("{", "}"), ("x = (", ")"), ("x = a[", "]"), ("if (c) {", "}"), ("f(", ")"),
+               ("while (c) {", "}"), ("for int i in [0:1] {", "}"), ("int[", "]"), ("-", ""), ("!", ""), ("x = -(", ")"),
+               ("def f() {", "}"), ("gate g q {", "}"), ("switch (x) { case 1 {", "} }"), ("a + (", ")"), ("{ x = ", "; }")]
+    for k in depths:
+        for o, c in openers:
+            out.append(o * k)
+            out.append(o * k + "a" + c * k)
+            out.append(o * k + "a" + c * k + ";")
+            out.append(o * k + c * (k // 2))
+    return out
+
+
 def enc(s):
     return ".".join("%x" % ord(c) for c in s)
 
